@@ -61,6 +61,9 @@ def guess_key(key: KeyFlexible, obj: GuestProtocol, use_random: bool = False) ->
     if isinstance(_norm_key, KeySet):
         headers = obj.headers()
         kid = headers.get("kid")
+        if "kid" in headers and not isinstance(kid, str):
+            # 0, false, null, [] ... are not "no kid"
+            raise ValueError('"kid" in header must be a str')
         if not kid and use_random:
             # choose one key by random
             rv_key = _norm_key.pick_random_key(headers["alg"])  # type: ignore[assignment]
